@@ -19,8 +19,10 @@ What is NOT proved (rests on the judge of harness/checks/C02.py over the targete
   `minify_relexes` for all trees and the grammar layer.
 -/
 import CalmVerif.Proofs.RoundTripFuel
+import CalmVerif.Proofs.RoundTripSafeMin0
+import CalmVerif.Proofs.RoundTripSafeMin1
 namespace CalmVerif.Props.C02
-open CalmVerif CalmVerif.Unparse
+open CalmVerif CalmVerif.Unparse CalmVerif.TokenAdj
 
 /-- the text `minify_print(tree, obfuscate=False, drop_semi=d)` returns, or the exception -/
 def minifyText (d : Bool) (tree : Val) : Except Err String :=
@@ -187,5 +189,37 @@ theorem minify_keeps_required_separators :
     minifyText true okPlus = .ok "x=a+ +b- --c" ∧ minifyText true okFor = .ok "for(;;);" ∧
     minifyText true okIf = .ok "if(a);else;" :=
   ⟨printsText_spec (by decide), printsText_spec (by decide), printsText_spec (by decide)⟩
+
+/-! ### lexical layer, parts (1)–(3) for the minify rule sets (see Props/C01 for the vocabulary) -/
+
+/-- D `first_last_closed` for `minify(drop_semi=False)` and `minify(drop_semi=True)` -/
+theorem first_last_closed_minify :
+    closedCert cxMin0 Gen.Defs.definitions = true ∧ closedCert cxMin1 Gen.Defs.definitions = true :=
+  ⟨certMin0_closed, certMin1_closed⟩
+
+/-- T `first_last_sound` / `adjacent_sound` without drop_semi: the chunk stream of every tree that respects the slot
+typing is a string of the root kind's certificate over the follow relation `followMin0` (the Literal handler's
+line-continuation stripping keeps the class `str`: `sig_dropLineCont`) -/
+theorem minify0_stream_typed (k : String) (as : List (String × Val)) (hw : wfVal cxMin0 (.node k as) = true)
+    (cs : List Chunk) (h : walkChunks (minifyCfg false) (.node k as) () = .ok (cs, ())) :
+    ∃ a, certOf cxMin0 k = some a ∧ InLang followMin0 a (syms (minifyCfg false).hd cs) :=
+  walkChunks_typed (minifyTyped false certMin0) followMin0 followMin0_closed k as hw () cs () h
+
+/-- the same with drop_semi -/
+theorem minify1_stream_typed (k : String) (as : List (String × Val)) (hw : wfVal cxMin1 (.node k as) = true)
+    (cs : List Chunk) (h : walkChunks (minifyCfg true) (.node k as) () = .ok (cs, ())) :
+    ∃ a, certOf cxMin1 k = some a ∧ InLang followMin1 a (syms (minifyCfg true).hd cs) :=
+  walkChunks_typed (minifyTyped true certMin1) followMin1 followMin1_closed k as hw () cs () h
+
+/-- (4)+(5), table level, partial: every two tokens either minifier can print with NO layout marker between them are
+`directSafe`, except KF-01 and the two artefacts of the abstraction.  The pairs separated by a `Space` /
+`OptionalSpace` marker — where KF-02b, KF-02c, KF-02f live — are decided by `required_space`
+(`space_table_gaps` / `space_table_hits` above) and are NOT covered by a lifted theorem. -/
+theorem direct_adjacent_safe_minify_partial : directOK followMin0 = true ∧ directOK followMin1 = true :=
+  ⟨direct_safe_min0, direct_safe_min1⟩
+
+/-- non-vacuity: the witnesses respect the slot typing -/
+example : wfVal cxMin1 kf02b = true ∧ wfVal cxMin1 kf02d = true ∧ wfVal cxMin1 okPlus = true ∧ wfVal cxMin1 okFor = true := by
+  decide +kernel
 
 end CalmVerif.Props.C02
